@@ -37,9 +37,17 @@ func (node *tagMacroNode) Execute(ctx *ExecutionContext, writer TemplateWriter) 
 func (node *tagMacroNode) call(ctx *ExecutionContext, args ...*Value) (*Value, error) {
 	argsCtx := make(Context)
 
+	// the parameters the caller passes do not need their default
+	passed := make(map[string]bool, len(args))
+	for idx := range args {
+		if idx < len(node.argsOrder) {
+			passed[node.argsOrder[idx]] = true
+		}
+	}
+
 	for k, v := range node.args {
-		if v == nil {
-			// User did not provided a default value
+		if v == nil || passed[k] {
+			// User did not provided a default value (or it is not needed)
 			argsCtx[k] = nil
 		} else {
 			// Evaluate the default value
